@@ -5,6 +5,7 @@ import (
 	"fmt"
 	"math"
 	"reflect"
+	"regexp"
 	"strings"
 	"sync/atomic"
 
@@ -73,6 +74,27 @@ func (c *evalCase) opts() []bexpr.Option {
 }
 
 func (c *evalCase) obs() string { return exprObs(c.expr, c.d, c.opts()...) }
+
+var addrRe = regexp.MustCompile(`0x[0-9a-f]{6,}`)
+
+// rawOutcome is the outcome of one Evaluate exactly as a caller sees it: the boolean and the full text of the error
+// (addresses, which differ between any two allocations, are blanked).
+func rawOutcome(c *evalCase) (o string) {
+	defer func() {
+		if r := recover(); r != nil {
+			o = "panic"
+		}
+	}()
+	ev, err := bexpr.CreateEvaluator(c.expr, c.opts()...)
+	if err != nil {
+		return "NOCREATE " + err.Error()
+	}
+	ok, err := ev.Evaluate(c.d)
+	if err != nil {
+		return fmt.Sprint(ok) + " " + addrRe.ReplaceAllString(err.Error(), "0xADDR")
+	}
+	return fmt.Sprint(ok)
+}
 
 func (c *evalCase) parse() bool {
 	t, ok := parseTree(c.expr)
